@@ -357,3 +357,75 @@ mk('input_into_elem_field', [],
          ('dim', 'dim', [('p', None, 'pt')])],
    types=[('pt', [('x%', None), ('y&', None)])],
    lines=1, tail_lines=['1,1'], family='input', budget=600)
+
+# ------------------------------------------- storage (C04 sentinel programs)
+mk('stor_unassigned_reads', ['a%', 'b%'],
+   [L(var('x%'), var('a%')), L(var('y%'), var('b%')),
+    P(('fld', var('r'), ['b'], '%'), ';', ('fld', var('r'), ['s'], '$'), ';',
+      S('|'), ';', ('idx', 'arr%', [I(1)]), ';', var('x%'), ';', var('y%')),
+    L(('fld', var('r'), ['a'], '%'), I(5)),
+    P(('fld', var('r'), ['a'], '%'), ';', ('fld', var('r'), ['b'], '%'), ';',
+      var('x%'), ';', var('y%'), ';', ('idx', 'arr%', [I(0)]), ';',
+      ('idx', 'arr%', [I(2)]))],
+   head=[('dim', 'dim', [('x%', None, None)]),
+         ('dim', 'dim', [('y%', None, None)]),
+         ('dim', 'dim', [('r', None, 'rt')]),
+         ('dim', 'dim', [('arr%', [(I(0), I(2))], None)])],
+   types=[('rt', [('a%', None), ('b%', None), ('s$', None)])],
+   family='storage')
+mk('stor_nested_record', ['v%', 'w&'],
+   [L(('fld', var('o'), ['p', 'x'], '%'), I(1)),
+    L(('fld', var('o'), ['p', 'y'], '&'), LG(2)),
+    L(('fld', var('o'), ['q', 'x'], '%'), I(3)),
+    L(('fld', var('o'), ['q', 'y'], '&'), LG(4)),
+    L(('fld', var('o'), ['n'], '%'), I(5)),
+    L(('fld', var('o'), ['q', 'x'], '%'), var('v%')),
+    L(('fld', var('o'), ['p', 'y'], '&'), var('w&')),
+    P(('fld', var('o'), ['p', 'x'], '%'), ';',
+      ('fld', var('o'), ['p', 'y'], '&'), ';',
+      ('fld', var('o'), ['q', 'x'], '%'), ';',
+      ('fld', var('o'), ['q', 'y'], '&'), ';',
+      ('fld', var('o'), ['n'], '%'), ';', var('z%'))],
+   head=[('dim', 'dim', [('o', None, 'outer')]),
+         ('dim', 'dim', [('z%', None, None)])],
+   types=[('pt', [('x%', None), ('y&', None)]),
+          ('outer', [('p', 'pt'), ('q', 'pt'), ('n%', None)])],
+   family='storage')
+mk('stor_array_of_records_sym', ['i%', 'v%'],
+   [L(('fld', ('idx', 'ps', [I(0)]), ['x'], '%'), I(10)),
+    L(('fld', ('idx', 'ps', [I(0)]), ['y'], '&'), LG(11)),
+    L(('fld', ('idx', 'ps', [I(1)]), ['x'], '%'), I(20)),
+    L(('fld', ('idx', 'ps', [I(2)]), ['y'], '&'), LG(31)),
+    L(('fld', ('idx', 'ps', [var('i%')]), ['y'], '&'), var('v%')),
+    P(('fld', ('idx', 'ps', [I(0)]), ['x'], '%'), ';',
+      ('fld', ('idx', 'ps', [I(0)]), ['y'], '&'), ';',
+      ('fld', ('idx', 'ps', [I(1)]), ['x'], '%'), ';',
+      ('fld', ('idx', 'ps', [I(1)]), ['y'], '&'), ';',
+      ('fld', ('idx', 'ps', [I(2)]), ['x'], '%'), ';',
+      ('fld', ('idx', 'ps', [I(2)]), ['y'], '&'), ';', var('k%'))],
+   head=[('dim', 'dim', [('ps', [(I(0), I(2))], 'pt')]),
+         ('dim', 'dim', [('k%', None, None)])],
+   types=[('pt', [('x%', None), ('y&', None)])],
+   family='storage')
+mk('stor_recursion_fresh_locals', ['n%'],
+   [('callsub', 'down', [var('n%')]), P(var('n%'))],
+   pre='0 <= x0 <= 3', budget=1200,
+   subs=[Sub('down', 'sub', [('k%', None)],
+             [P(var('mine%')),
+              L(var('mine%'), B('+', var('k%'), I(100))),
+              ('if', [(B('>', var('k%'), I(0)),
+                       [('callsub', 'down', [B('-', var('k%'), I(1))])])],
+               None),
+              P(var('mine%'), ';', var('k%'))])],
+   family='storage')
+mk('stor_shared_array_in_sub', ['i%', 'v&'],
+   [L(('idx', 'g&', [I(1)]), LG(5)),
+    ('callsub', 'setg', [var('i%'), var('v&')]),
+    P(('idx', 'g&', [I(0)]), ';', ('idx', 'g&', [I(1)]), ';',
+      ('idx', 'g&', [I(2)]), ';', var('h%'))],
+   head=[('dim', 'shared', [('g&', [(I(0), I(2))], None)]),
+         ('dim', 'shared', [('h%', None, None)])],
+   subs=[Sub('setg', 'sub', [('k%', None), ('x&', None)],
+             [L(('idx', 'g&', [var('k%')]), var('x&')),
+              L(var('h%'), B('+', var('h%'), I(1)))])],
+   family='storage')
